@@ -240,7 +240,11 @@ def dep_canonical(ctx, cases):
         if p is None or p.returncode != 0:
             bad = 'unguarded interpreter died (rc=%s) on %s' % (getattr(p, 'returncode', 'timeout'), json.dumps(c)[:160])
             break
-        evs.extend(json.loads(p.stdout))
+        got = json.loads(p.stdout)
+        if any(tracecheck.monstrous(e) for e in got):
+            bad = 'without the guard the library returns a number with thousands of digits on %s' % json.dumps(c)[:160]
+            break
+        evs.extend(got)
     if bad is None and evs:
         for j, e in enumerate(evs):
             e['id'] = 'plain:%d' % j
